@@ -32,6 +32,12 @@ CHECKS = {
     "C16": ("exploration", "runtime monitoring: real I/O tasks over socketpairs/loopback with a feeder/drainer peer; callback-boundary monitor (window cursors, canaries in an exact-size heap buffer, stop/pause shadow flags) plus offline byte-stream comparison; ASan+UBSan and TSan builds",
             "Held on the scenarios explored: read/recv tasks must hand over exactly the fed byte stream through the buffer windows (every window position/size incl. 1-byte, persistent/dispatch/one-shot, callback-after-every-read, direct first I/O), with cursors advanced by exactly the transferred amount and nothing written outside the window; end of stream once; timeouts once for a 10x gap and never for gaps <= T/20; nothing after stop/destroy on the owning thread, nothing while a dispatch task is paused; write/send tasks must deliver exactly the window to a slow peer through a tiny send buffer and complete once; packet receiver and accept tasks are counted.",
             TP_NOTE + "; regular-file pread/pwrite and socket resets are not driven (see evidence assumptions)", "DESIGN.md 4 C16"),
+    "C12": ("exploration", "runtime monitoring: every utility codec/container in the anchors driven under gcc and clang ASan+UBSan on exact-size heap inputs and outputs whose capacity sweeps 0..required+1 (also between canary frames), reported required sizes passed back, per-case CPU-time alarm",
+            "Held on the cases explored: 118 functions (Base64, hex, num/str, UTF-8, ASN.1, bencode, XML extraction, INI, argument splitting, line iteration, mem_* helpers, CRC) with 18 structure-aware generator families plus mutations (truncation at every byte, delimiter as last byte, lengths beyond the buffer, closing tag first, 2^64 length wrap); a sanitizer bounds report, a canary change, a reported size that is not sufficient, or a CPU-time alarm is a violation; the run is inconclusive if any anchored function was never executed or a monitor fails to fire on a deliberate driver fault.",
+            "trusted: ASan red zones + canaries (non-adjacent and intra-object overflows can escape); functions are called within documented preconditions; returned spans that leave the input are observations (C13 clause)", "DESIGN.md 4 C12"),
+    "C14": ("exploration", "runtime monitoring: encoders/decoders executed in asu and plain -O0/-O2/-O3 gcc/clang builds, every output compared with Python references (base64, binascii, int/str, urllib.parse, five-entity XML escape, bitwise Rocksoft CRC model)",
+            "Held on the cases explored: Base64 lengths 0..64 + random to 4 KiB incl. tolerant decoding with interleaved non-alphabet bytes; hex both cases; all 20 number formatters (u8/s8 exhaustive, every 10^k and 10^k+-1, minima/maxima, random) with reported length and round trip through the parsers; XML entity encode/decode; URL unescape of quote/quote_plus; eight CRC variants over lengths 0..300+ with chained updates and the 123456789 check values.",
+            "trusted: Python stdlib references and oracles/crc.py (catalogue check values in setup)", "DESIGN.md 4 C14"),
     "C15": ("exploration", "runtime monitoring: library-built DNS/RADIUS messages executed under ASan+UBSan in exact-size buffers, every observation compared with independent RFC 1035/6891 and RFC 2865/2869 reference encoders (hashlib MD5/HMAC)",
             "Held on the cases explored: DNS build sequences compared byte-for-byte with a reference encoder, validated and parsed back; name/label round trips with buffer sizes swept around the need; RADIUS build/sign/verify against reference authenticators, password hiding at every 16-octet edge 0..128, wrong secrets and single-octet corruptions of signed packets (all octets x 3 masks in thorough) judged by what RFC processing must detect.",
             "trusted: Python hashlib/hmac, the reference encoders (self-tested on RFC 2865 7.1 packets and RFC 2202 vectors in setup); names outside 1..253 octets and attributes whose semantics the library does not document are recorded but not judged",
